@@ -29,7 +29,10 @@ def unique_cell(kind, r, c):
 def layout_lines(ops_rows, n_spines, rng=None, dense=0):
     """dense=0: one data row after every operator row; 1: operator rows directly follow each other; 2: a global comment
     between consecutive operator rows."""
-    types = ['**kern' if i % 2 == 0 else '**text' for i in range(n_spines)]
+    # the odd spines are free-text spines; in some layouts their type is one kernpy does not know, spelled with capitals (a header
+    # is taken as written: '**MIDI' is not '**midi', '**Kern' is not '**kern')
+    odd = ['**text', '**MIDI', '**text', '**Silbe', '**IPA', '**text', '**Kern'][(len(ops_rows) + dense) % 7]
+    types = ['**kern' if i % 2 == 0 else odd for i in range(n_spines)]
     lines = [('s', list(types))]
     paths = list(range(n_spines))
     r = 0
@@ -157,7 +160,7 @@ def compare_tree(ctx: Ctx, case, lines, types, doc, expected_enc=None):
         viol('spine-ids', f'get_spine_ids() = {ids}, expected {list(range(len(types)))}')
         ok = False
     import kernpy as kp
-    st_ = kp.spine_types(doc)
+    st_ = kp.spine_types(doc, list(dict.fromkeys(types)))     # every type of the text named: the header line as written
     if st_ != [t for t in types]:
         viol('spine-types', f'spine_types() = {st_}, expected {types}')
         ok = False
@@ -268,12 +271,12 @@ def run(ctx: Ctx):
             ctx.cls('layout')
             if len(rows) >= 2:
                 for dense in (1, 2):
-                    dl, _ = layout_lines(rows, sp[0], dense=dense)
-                    run_case(ctx, dict(case, dense=dense), dl, types, nontrivial=nontriv)
+                    dl, dtypes = layout_lines(rows, sp[0], dense=dense)
+                    run_case(ctx, dict(case, dense=dense), dl, dtypes, nontrivial=nontriv)
                     ctx.cls('layout_consecutive_operator_rows' if dense == 1 else 'layout_comment_between_operator_rows')
             if cnt % 7 == 0:
-                hl, _ = layout_lines(rows, sp[0], rng=rng)
-                run_case(ctx, dict(case, hostile=True), hl, types, nontrivial=True)
+                hl, htypes = layout_lines(rows, sp[0], rng=rng)
+                run_case(ctx, dict(case, hostile=True), hl, htypes, nontrivial=True)
                 ctx.cls('layout_hostile_text')
             if cnt % 5 == 0:
                 surplus_case(ctx, case, lines, rng)
